@@ -157,6 +157,9 @@ type Violation struct {
 
 func (v Violation) Sig() string { return v.Check + "|" + v.Disc }
 
+// maxPanicDeaths: after that many deaths by panic no further worker is started.
+const maxPanicDeaths = 6
+
 // Sim is one simulated run.
 type Sim struct {
 	// Unpaused: sets whose pause the premise phase lifted (flags profile).
@@ -196,6 +199,8 @@ type Sim struct {
 	helperSeen map[string]bool
 	Releases   []RelInfo
 	revDirty   bool
+	// panicDeaths counts process deaths caused by a panic of the code under test
+	panicDeaths int
 	// revDirtySeq: call sequence number at the last such write
 	revDirtySeq int
 
@@ -405,6 +410,12 @@ func (s *Sim) StartWorker() *actor {
 	if inc == nil || inc.queue.Len() == 0 {
 		return nil
 	}
+	if s.panicDeaths >= maxPanicDeaths {
+		// the controller is in a crash loop (every restart meets the same panic):
+		// the panic is reported already, further incarnations add nothing but
+		// thousands of leaked goroutines to the bubble
+		return nil
+	}
 	live := 0
 	for _, w := range inc.workers {
 		if !w.done {
@@ -455,6 +466,8 @@ func (s *Sim) finishReconcile(a *actor) {
 	if rec.Panic != nil && !a.dead {
 		// a panic in a worker kills the process (HandleCrash re-panics): restart
 		s.tracef("process died from panic: %v", rec.Panic)
+		s.panicDeaths++
+		s.count("process.death_by_panic")
 		s.CrashRestart(nil)
 	}
 }
